@@ -50,6 +50,7 @@ func exec(op string) string {
 	v := bfe_http2.NewVerifC35(uint32(adv))
 	defer v.Close()
 	var outs []string
+	halfUpdated := false
 	for _, e := range parts[1:] {
 		if e == "" {
 			continue
@@ -119,7 +120,11 @@ func exec(op string) string {
 			return "bad-op"
 		}
 		outs = append(outs, r)
-		if r == "close" || strings.HasPrefix(r, "panic") || r == "HANG" || (e[0] == 'S' && (r == "ga:3" || r == "fail")) {
+		if e[0] == 'S' && (r == "ga:3" || r == "fail") {
+			halfUpdated = true // which streams got the new window depends on Go's map order: windows are not printed
+			break
+		}
+		if r == "close" || strings.HasPrefix(r, "panic") || r == "HANG" {
 			break
 		}
 	}
@@ -127,7 +132,23 @@ func exec(op string) string {
 	if o == "" {
 		o = "-"
 	}
-	return o + "|" + v.State()
+	st := v.State()
+	if halfUpdated {
+		var b strings.Builder
+		depth := 0
+		for _, c := range st {
+			switch {
+			case c == '(':
+				depth++
+			case c == ')':
+				depth--
+			case depth == 0:
+				b.WriteRune(c)
+			}
+		}
+		st = b.String()
+	}
+	return o + "|" + st
 }
 
 func gen(r *vh.Rand) string {
